@@ -43,6 +43,9 @@ def layout():
         "other/in/o2.cmake": T_TEXT,
         # two files that differ only in the letter case of the extension (both map to one page: the later one wins)
         "other/twin.cmake": fsbox.cmake_content("twin-lower"), "other/twin.CMake": fsbox.cmake_content("twin-mixed"),
+        # a directory with many entries of which one is a CMake file
+        **{f"wide/tables/t{n:03d}.csv": "1,2\n" for n in range(300)}, "wide/tables/load_table.cmake": fsbox.cmake_content("load"),
+        "wide/top.cmake": fsbox.cmake_content("widetop"),
         # a tree whose path begins with the characters of the output directory's path ('out' / 'out-tree')
         "out-tree/top.cmake": fsbox.cmake_content("top"), "out-tree/modules/greet.cmake": fsbox.cmake_content("greet"),
         "out-tree/modules/deep/x.cmake": fsbox.cmake_content("x"),
@@ -51,9 +54,18 @@ def layout():
     }
 
 
+def add_links(base):
+    """symbolic links of the layout (relative targets, inside the tree): only walked with follow_symlinks on"""
+    for link, target in (("dtree/shortcuts", "sub"), ("wide/alias", "tables")):
+        p = os.path.join(base, link)
+        if os.path.isdir(os.path.dirname(p)) and not os.path.lexists(p):
+            os.symlink(target, p)
+
+
 INPUTS = {"K": "kdir/kfile.cmake", "D": "dtree", "D2": "other", "T": "tfile.cmake", "E": "empty.cmake",
           "DS": "dtree/sub",       # DS: a sub-directory of D given as an input of its own
-          "OT": "out-tree"}        # OT: its path starts with the output directory's path
+          "OT": "out-tree",        # OT: its path starts with the output directory's path
+          "W": "wide"}             # W: a sub-directory with 300 non-CMake entries and one module
 
 CLI = ("import sys; sys.path.insert(0, %r); import warnings; warnings.filterwarnings('ignore'); import cminx; "
        "cminx.main(sys.argv[1:])")
@@ -75,6 +87,7 @@ def reference(seedval="0", cfg="default"):
     R = {}
     try:
         box.build(layout())
+        add_links(box.path("work"))
         env = dict(os.environ, CMINXDIR=box.path("cfg"), HOME=box.path("home"), XDG_CONFIG_HOME=box.path("home", ".config"), PWD=box.path("stale-pwd"),
                    PYTHONHASHSEED=seedval)
         for x, rel in INPUTS.items():
@@ -124,6 +137,7 @@ def _run_history(job, RR):
     msgs = []
     try:
         box.build(layout())
+        add_links(box.path("work"))
         cwdp = {"work": "work", "kdir": "work/kdir", "root": "/"}[cwd]
         base = box.path("work")
         out = box.path("work", "out")
@@ -171,6 +185,7 @@ def _run_env(job, RR):
         if via_link:
             os.symlink("real place", box.path("via-link"))
             base = box.path("via-link", "work")
+        add_links(box.path(prefix) if prefix != "work" else box.path("work"))
         target = os.path.join(base, INPUTS[x])
         isdir = os.path.isdir(target)
         cwd = {"work": base, "inside": target if isdir else os.path.dirname(target), "root": "/"}[devs.get("cwd", "work")]
@@ -282,6 +297,8 @@ def deviations(x):
             ("location", "archive [2024]/a*b?/{x,y}/(z)+/work"),
             # a symbolic link among the directories above the tree
             ("location", "SYMLINK"),
+            # a very deep location (24 levels above the tree)
+            ("location", "/".join(f"l{n}" for n in range(24)) + "/work"),
             ("spelling", "abs"), ("spelling", "dotslash"), ("spelling", "updown"), ("listing", "reversed")]
     if x in ("D", "D2"):
         devs += [("spelling", "slash"), ("spelling", "dot")]
@@ -298,7 +315,7 @@ def run(ctx):
         ctx.violation({"kind": "reference"}, compare(R2, R, "reference under hash seed 4242"), cls="bytes hash-seed")
     R = {"default": R, "strip": reference("0", "strip"), "excl": reference("0", "excl"), "follow": reference("0", "follow"),
          "excl2": reference("0", "excl2")}
-    names = [x for x in INPUTS if x not in ("DS", "OT")]
+    names = [x for x in INPUTS if x not in ("DS", "OT", "W")]
     n = 3 if quick else 4
     hjobs = []
     for k in range(1, n + 1):
@@ -328,6 +345,10 @@ def run(ctx):
             for d1, d2 in itertools.combinations(ds, 2):
                 if d1[0] != d2[0]:
                     ejobs.append((x, (d1, d2)))
+    # the wide directory under both listing orders; symbolic links inside the tree followed, from three working directories
+    ejobs += [("W", ()), ("W", (("listing", "reversed"),)), ("W", (("listing", "reversed"), ("settings", "follow")))]
+    ejobs += [(x, (d, ("settings", "follow"))) for x in ("D", "W") for d in (("cwd", "inside"), ("cwd", "root"), ("spelling", "abs"),
+                                                                         ("location", "moved/else where/deeper/work"))]
     ejobs += [("OT", ()), ("OT", (("cwd", "inside"),)), ("OT", (("spelling", "abs"),)), ("OT", (("settings", "excl"),))]
     # every listing order of D's top directory while two sibling files and two sibling directories are excluded
     ejobs += [("D", (d, ("settings", "excl2"))) for d in deviations("D") if d[0] == "listing"]
